@@ -39,7 +39,9 @@ from rpylib.product.underlying import DefaultTime, NthDefaultTimes, DefaultTimeN
 warnings.filterwarnings("ignore", category=scipy.linalg.LinAlgWarning)
 warnings.filterwarnings("ignore", category=RuntimeWarning)
 
-RULE = ("1-d: model families (HEM, Merton, VG, CGMY in every activity branch; LevyModel and ExponentialOfLevyModel) x zoo "
+RULE = ("synthetic: random dyadic axes with a piecewise-constant dyadic Levy density (exact integrals), threshold on a cell "
+        "boundary (exact equality demanded) or off the boundaries (compared with M only; includes the Lean witness). "
+        "1-d: model families (HEM, Merton, VG, CGMY in every activity branch; LevyModel and ExponentialOfLevyModel) x zoo "
         "parameter draws x thresholds a in {-0.2,...,-0.5} x h in {0.1, 0.05, 0.02} -> CTMCCredit chain (create_q_vector on the "
         "truncated measure; every third case through MarkovChainProcess). n-d (d = 2; d = 3 in thorough and once in quick): "
         "margins drawn from the families (identical margins forced in a third of the cases so that pair/triple terms are not "
@@ -223,6 +225,100 @@ def _chain1d(ctx, d, cls, corr):
                 and close(th_trunc, m_th, scale=max(abs(m_th), fr(lam) * fr(REL)))):
             ctx.fail("corr", "c19.region1d.model", d, {"name": "Drivers/C19 region1d vs the chain's rates", "impl_region": region,
                                                       "impl_theta": th_trunc, "model": out}, cls=cls)
+
+
+# ------------------------------------------------------------------------------------------------- edge: -h <= a < 0
+def level_within_h_probe(ctx, d, corr=True):
+    cls = dict(stream="edge", level_within_h=True, at_minus_h=(d["a"] == -d["h"]))
+    guarded(ctx, "c19.credit.level_within_h", d, cls, _level_within_h, ctx, d, cls)
+
+
+def _level_within_h(ctx, d, cls):
+    """the excluded point of `credit_grid_threshold_on_boundary` (hypothesis a < -h), run on the real code: a negative
+    threshold not beyond the first negative state.  Admissible outcomes: the constructor refuses, or the property holds."""
+    model = make_model(d["family"], d["params"], False)
+    a, h = d["a"], d["h"]
+    ctx.count("c19.credit.level_within_h", d, nontrivial=True, branch="at_minus_h" if a == -h else "inside_h")
+    try:
+        g = zoo.CTMCCredit(h=h, level_a=a, model=model)
+    except ValueError:
+        ctx.branches["c19.credit.level_within_h:rejected_by_constructor"] += 1
+        return
+    ax = zoo.axis_list(g)[0]
+    o = int(list(g.origin_coordinate)[0])
+    out = rdl(ctx.lean(f"credit {w(ax[0])} {w(a)} {w(h)} {w(ax[-1])} 0").split(" ")[0])
+    mirrors = len(out) == len(ax) and all(close(p, q, scale=max(abs(q), fr(h))) for p, q in zip(ax, out))
+    detail = {"axis": ax, "what": "CTMCCredit accepts a threshold with -h <= a < 0 and returns an axis that is not strictly increasing"}
+    if axis_ok(ax, o):
+        return
+    try:
+        model_t = copy.deepcopy(model)
+        model_t.truncate_levy_measure(truncations=g.truncations[0])
+        q = [float(x) for x in create_q_vector(model_t.levy_triplet.nu, g)]
+        detail["region_rate"] = math.fsum(q[k] for k, x in enumerate(ax) if x < a)
+        detail["theta_truncated"] = float(CFLevyModel(model_t)._theta(a))
+    except ValueError as e:
+        detail["chain"] = repr(e)
+    ctx.fail("oracle", "c19.credit.level_within_h", d, detail, cls=cls, mirrors_model=bool(mirrors))
+
+
+# ------------------------------------------------------------------------------------------------- synthetic exact stream
+def synthetic_probe(ctx, d, corr=True):
+    cls = dict(stream="synthetic", on_boundary=d["on_boundary"])
+    guarded(ctx, "c19.synthetic", d, cls, _synthetic, ctx, d, cls, corr)
+
+
+def _synthetic(ctx, d, cls, corr):
+    """raw CTMCGrid with a dyadic axis and a piecewise-constant Levy density (exact integrals): with the threshold on a cell
+    boundary the region rate equals nu[l, a] *exactly*; off the boundaries (Lean witness `off_boundary_threshold_breaks`)
+    nothing is demanded, the implementation is only compared with M"""
+    from rpylib.model.levymodel.levymodel import TruncatedLevyMeasure
+    ax, o, a = d["axis"], d["o"], d["a"]
+    g = zoo.CTMCGrid(h=ax[o + 1], origin_coordinate=o, axes=[np.array(ax)])
+    nu = zoo.TableMeasure(d["knots"], d["heights"])
+    nu_t = TruncatedLevyMeasure(nu, (ax[0], ax[-1]))
+    q = [float(x) for x in create_q_vector(nu_t, g)]
+    region = math.fsum(q[k] for k, x in enumerate(ax) if x < a)
+    theta = float(nu_t.integrate(-INF, a))
+    ctx.count("c19.synthetic", d, nontrivial=theta > 0, branch="on_boundary" if d["on_boundary"] else "off_boundary")
+    if d["on_boundary"] and region != theta:
+        ctx.fail("oracle", "c19.region_rate_eq_theta", d, {"dim": 1, "region_rate": region, "theta_clipped": theta,
+                                                         "what": "exact synthetic measure, threshold on a cell boundary"}, cls=cls)
+        return
+    if corr:
+        out = ctx.lean(f"region1d {wl(ax)} {o} {w(a)} {wl(q)} {w(theta)}").split(" ")
+        if not (rd(out[0]) == fr(region) and rd(out[1]) == fr(theta)
+                and [int(x) for x in rdl(out[2])] == [k for k, x in enumerate(ax) if x < a]):
+            ctx.fail("corr", "c19.region1d.model", d, {"name": "Drivers/C19 region1d vs create_q_vector (exact stream)",
+                                                      "impl_region": region, "impl_theta": theta, "model": out}, cls=cls)
+
+
+def case_synthetic(rng, witness=False):
+    if witness:     # the Lean negation witness `off_boundary_threshold_breaks`, replayed on the implementation
+        return dict(axis=[-4.0, -2.0, -1.0, 0.0, 1.0, 3.0, 7.0], o=3, a=-2.5, knots=[-8.0, 8.0], heights=[1.0], on_boundary=False)
+    nl, nr = rng.randint(2, 5), rng.randint(1, 4)
+    left, x = [], 0.0
+    for _ in range(nl):
+        x -= rng.randint(1, 12) / 8
+        left.append(x)
+    right, x = [], 0.0
+    for _ in range(nr):
+        x += rng.randint(1, 12) / 8
+        right.append(x)
+    ax = left[::-1] + [0.0] + right
+    o = nl
+    on = rng.random() < 0.6
+    if on:
+        t = rng.randint(1, o)                      # boundary below cell t, 0 < t <= o
+        a = (ax[t - 1] + ax[t]) / 2
+    else:
+        t = rng.randint(0, o - 1)
+        a = ax[t] + (ax[t + 1] - ax[t]) * rng.choice([1, 3, 5, 7]) / 8
+        if a == (ax[t] + ax[t + 1]) / 2:
+            a = ax[t] + (ax[t + 1] - ax[t]) / 8
+    knots = sorted({-16.0, ax[0] - rng.randint(0, 8) / 8, rng.choice(ax[:o]) + 1 / 16, -1 / 32, 1 / 32, 16.0})
+    heights = [rng.randint(0, 16) / 8 for _ in knots[1:]]
+    return dict(axis=ax, o=o, a=a, knots=knots, heights=heights, on_boundary=on)
 
 
 # ------------------------------------------------------------------------------------------------- n-d chains
@@ -729,15 +825,18 @@ def case_theta(rng):
                 delta=rng.choice([0.1, 0.01, 1e-4]))
 
 
-PROBES = {"c19.theta": theta_probe, "c19.chain1d": chain1d_probe, "c19.chainNd": chainnd_probe, "c19.spreads": spreads_probe,
+PROBES = {"c19.credit.level_within_h": level_within_h_probe, "c19.synthetic": synthetic_probe, "c19.theta": theta_probe, "c19.chain1d": chain1d_probe, "c19.chainNd": chainnd_probe, "c19.spreads": spreads_probe,
           "c19.deftimes": deftimes_probe, "c19.payoff": payoff_probe, "c19.guards": guards_probe}
 # every failure a probe can raise is replayed by the probe that owns the stream
-OWNER = {"theta": "c19.theta", "1d": "c19.chain1d", "nd": "c19.chainNd", "spreads": "c19.spreads", "deftimes": "c19.deftimes", "payoff": "c19.payoff",
+OWNER = {"synthetic": "c19.synthetic", "theta": "c19.theta", "1d": "c19.chain1d", "nd": "c19.chainNd", "spreads": "c19.spreads", "deftimes": "c19.deftimes", "payoff": "c19.payoff",
          "guards": "c19.guards"}
 
 
 def run(ctx, corr=True):
     rng = ctx.rng
+    synthetic_probe(ctx, case_synthetic(rng, witness=True), corr)
+    for _ in range(ctx.n(80, 1000)):
+        synthetic_probe(ctx, case_synthetic(rng), corr)
     for i, fam in enumerate(zoo.FAMILIES * ctx.n(30, 400)):
         chain1d_probe(ctx, case_1d(rng, fam, i), corr)
     for _ in range(ctx.n(150, 2500)):
@@ -756,6 +855,10 @@ def run(ctx, corr=True):
         deftimes_probe(ctx, case_deftimes(rng), corr)
     for _ in range(ctx.n(100, 1500)):
         payoff_probe(ctx, case_payoff(rng), corr)
+    for _ in range(ctx.n(4, 40)):            # the hypothesis a < -h of the credit-grid theorem, run at the excluded points
+        fam, params = draw_margin(rng)
+        h = rng.choice([0.1, 0.05])
+        level_within_h_probe(ctx, dict(family=fam, params=params, h=h, a=rng.choice([-h, -h / 2, -0.8 * h])))
     if corr:
         base = case_nd(rng, 3)
         bad = list(base["a"])
